@@ -1,4 +1,5 @@
 import Qats.Lemmas.DistMain
+import Qats.Lemmas.DistGumbel
 /-!
 # C15 — distribution objects are internally coherent
 
@@ -73,6 +74,28 @@ theorem gu_median_is_half (loc scale : ℝ) (hs : 0 < scale) : gu_cdf loc scale 
 
 theorem gu_mode_is_max (loc scale x : ℝ) (hs : 0 < scale) : gu_pdf loc scale x ≤ gu_pdf loc scale (gu_mode loc) :=
   gu_mode' loc scale x hs
+
+/-- The Gumbel (maxima) density integrates to 1 and its mean is `loc + γ·scale`, `γ` the Euler–Mascheroni constant
+(from Mathlib's `Γ'(1) = −γ` and two substitutions). -/
+theorem gu_density_mean (loc scale : ℝ) (hs : 0 < scale) :
+    (MeasureTheory.Integrable (fun x => gu_pdf loc scale x) ∧ ∫ x, gu_pdf loc scale x = 1) ∧
+    (MeasureTheory.Integrable (fun x => x * gu_pdf loc scale x) ∧
+      ∫ x, x * gu_pdf loc scale x = loc + Real.eulerMascheroniConstant * scale) :=
+  gu_density_mean' loc scale hs
+
+/-- The Gumbel (minima) density integrates to 1 and its mean is `loc − γ·scale`. -/
+theorem gm_density_mean (loc scale : ℝ) (hs : 0 < scale) :
+    (MeasureTheory.Integrable (fun x => gm_pdf loc scale x) ∧ ∫ x, gm_pdf loc scale x = 1) ∧
+    (MeasureTheory.Integrable (fun x => x * gm_pdf loc scale x) ∧
+      ∫ x, x * gm_pdf loc scale x = loc - Real.eulerMascheroniConstant * scale) :=
+  gm_density_mean' loc scale hs
+
+/-- The reported means are `loc ± c·scale` for one constant `c` that agrees with `0.5772156649015329` to 1e-15; with the two
+theorems above, reported mean − mean of the density = `±(c − γ)·scale`. That `γ = 0.57721566490153286…` is a numerical fact
+outside Mathlib (it proves `1/2 < γ < 2/3`); the harness compares the literal with `numpy.euler_gamma`. -/
+theorem gu_gm_mean_shape (loc scale : ℝ) :
+    ∃ c : ℝ, |c - 0.5772156649015329| ≤ 1e-15 ∧ gu_mean loc scale = loc + c * scale ∧ gm_mean loc scale = loc - c * scale :=
+  gu_mean_shape' loc scale
 
 /-- The minimum distribution is the mirror image of the maximum distribution. -/
 theorem gm_mirror (loc scale x p : ℝ) (hs : 0 < scale) :
